@@ -157,7 +157,21 @@ def tasks(tier, seed):
     for sk in SKELETONS:
         for r in set_rn:
             t.append(dict(part='setvalues', skeleton=sk, renaming=list(r), tier=tier))
+    for lo in range(0, 64, 4):
+        t.append(dict(part='exotic', tier=tier, lo=lo, hi=lo + 4, fresh=True))
     return t
+
+
+def on_abort(task, info):
+    if task.get('part') == 'exotic':
+        pool = EXOTIC_NAMES
+        windows = [tuple(pool[(i + k) % len(pool)] for k in range(3)) for i in range(len(pool))]
+        windows += [tuple(reversed(w)) for w in windows]
+        return dict(key='C03|name-neither-handled-nor-refused-process-abort|exotic-names',
+                    what=f"the process died (exit {info.get('exitcode')}) while a model with parameters named as one of "
+                         f"{windows[task['lo']:task['hi']]} was built or evaluated: {str(info.get('log_tail', ''))[-160:]}",
+                    case={k: v for k, v in task.items() if k != 'fresh'})
+    return None
 
 
 def run_task(task):
@@ -174,6 +188,8 @@ def run_task(task):
         _history(task, rec)
     elif task['part'] == 'setvalues':
         _setvalues(task, rec)
+    elif task['part'] == 'exotic':
+        _exotic(task, rec)
     return rec.result()
 
 
@@ -337,6 +353,66 @@ def _history(task, rec):
                                   f'{holder} expression of {sk}, sequence of dictionaries (masks) {seq}: step {step} with {dct(mask, 0.125 * (step + 1))} gave {got}, '
                                   f'expected {want} [renaming {mapping}, statuses {st}]', case, expected=want, observed=got)
     rec.sample(dict(part='history', skeleton=sk, renaming=mapping, depth=depth))
+
+
+EXOTIC_NAMES = ['b,2', 'a"q', 'p[1]', 'q{3}', 'r(4)', 's<5>', 't 6', "u'7", 'β_x', 'v=1', 'w;x', 'y|z', 'k#1', '2x', 'm,', '"n"',
+                'o\\p', 'x%s', 'b{0}', 'c:d', 'e/f', 'g.h', 'i-j', 'k+l', 'm*n', 'p?', '~q', 'r@s', 't$', 'u&v', 'None', 'nan']
+
+
+def _exotic(task, rec):
+    """Renamings into names made of unusual characters (every window of three consecutive names of a 32-name pool, in both
+    directions).  A name the library cannot handle may be refused with the library's own error; if the model is accepted,
+    log likelihood, gradient (by name), simulation and the dictionary forms must be those of the reference."""
+    import numpy as np
+    from biogeme.exceptions import BiogemeError
+    from vf.engine import make_db, make_biogeme, is_engine_error
+    pool = EXOTIC_NAMES
+    windows = [tuple(pool[(i + k) % len(pool)] for k in range(3)) for i in range(len(pool))]
+    windows += [tuple(reversed(w)) for w in windows]
+    windows = windows[task.get('lo', 0):task.get('hi', len(windows))]
+    for sk in ('regression', 'binlogit'):
+        canonical = SKELETONS[sk][0]
+        variant = SKELETONS[sk][-1]
+        for r in windows:
+            mapping = dict(zip(['p0', 'p1', 'p2'], r))
+            inv = {n: o for o, n in mapping.items()}
+            statuses = ('free', 'free', 'fixed') if sum(map(len, r)) % 2 else ('free', 'free', 'free')
+            st = dict(zip(['p0', 'p1', 'p2'], statuses))
+            free_orig = [o for o in ['p0', 'p1', 'p2'] if st[o] != 'fixed']
+            params = {o: (ORIG[o] if st[o] == 'fixed' else POINT[o]) for o in ORIG}
+            want_ll, want_g = ref_ll_grad(canonical, free_orig, params)
+            case = dict(part='exotic', skeleton=sk, renaming=list(r), tier=task['tier'], lo=task.get('lo', 0), hi=task.get('hi', 64))
+            key = ('exotic', sk, r)
+
+            def bad(clause, what):
+                rec.violation(f'C03|{clause}|exotic-names:{sk}', what + f' [renaming {mapping}, statuses {st}]', case)
+
+            try:
+                expr = R.Builder(spec_for(mapping, statuses)).build(rename(variant, mapping))
+                b = make_biogeme(make_db(ROWS, COLS), expr)
+                names = list(b.free_beta_names)
+                x = np.array([POINT[inv[nm]] for nm in names], dtype=float)
+                ll = float(b.calculate_likelihood(x, scaled=False))
+                d = b.calculate_likelihood_and_derivatives(x, scaled=False, hessian=False, bhhh=False)
+                sim = float(sum(b.simulate({nm: POINT[inv[nm]] for nm in names})['log_like']))
+            except BiogemeError as e:
+                rec.case(key, (sk, r, 'refused'), outcome='refused')
+                continue
+            except Exception as e:
+                rec.case(key, (sk, r, type(e).__name__), outcome='raised')
+                bad(f'name-neither-handled-nor-refused-{type(e).__name__}', f'{type(e).__name__}: {str(e)[:160]}')
+                if is_engine_error(e):
+                    rec.retire = True
+                    return
+                continue
+            gmap = {inv[nm]: float(v) for nm, v in zip(names, d.gradient)}
+            rec.case(key, (sk, r, round(ll, 9)), outcome='accepted')
+            if sorted(names) != sorted(mapping[o] for o in free_orig):
+                bad('free-parameter-set', f'free_beta_names={names}')
+            elif not close(ll, want_ll) or not close(sim, want_ll):
+                bad('log-likelihood-changes-under-renaming', f'LL={ll!r}, sum of simulated values {sim!r}, expected {want_ll!r}')
+            elif not all(close(gmap[o], w, 1e-8) for o, w in zip(free_orig, want_g)):
+                bad('gradient-entry-attached-to-wrong-name', f'gradient by original name {gmap} expected {dict(zip(free_orig, want_g))}')
 
 
 def _setvalues(task, rec):
@@ -646,6 +722,27 @@ def replay(case):
         _estimate(case, rec)
     elif case['part'] == 'history':
         _history(case, rec)
+    elif case['part'] == 'setvalues':
+        _setvalues(case, rec)
+    elif case['part'] == 'exotic':
+        # in a child process: a name the engine cannot parse may take the process down
+        import multiprocessing as mp
+        import sys
+        ctx = mp.get_context('spawn')
+        p = ctx.Process(target=_exotic_child, args=(dict(case),))
+        p.start()
+        p.join(600)
+        if p.exitcode not in (0, 3):
+            return [on_abort(dict(case, lo=case.get('lo', 0), hi=case.get('hi', 64)), dict(exitcode=p.exitcode, log_tail=''))]
+        return [dict(key='replayed-in-child', what='violation reproduced in the child process', case=case)] if p.exitcode == 3 else []
     else:
         _duplicates(rec)
     return rec.violations
+
+
+def _exotic_child(case):
+    import sys
+    rec = Rec()
+    _exotic(case, rec)
+    wanted = [v for v in rec.violations if 'renaming' not in case or v['case'].get('renaming') == case.get('renaming')]
+    sys.exit(3 if wanted else 0)
